@@ -24,6 +24,9 @@ pub struct Guest {
     pub args: String,
     pub fails: bool,
     pub features: Vec<&'static str>,
+    /// cumulative state count the machine starts with (the counter is 64 bits wide: some runs start just
+    /// below 2^32 so that totals, stamps and sync messages cross it)
+    pub start_total: u64,
 }
 
 fn emit(v: &mut Vec<u8>, i: Insn) {
@@ -237,7 +240,17 @@ pub fn build_guest_tuned(e: &mut Ent, tune: Option<&Tune>) -> Guest {
     let _ = texts;
     let file = simple_elf(&c, 0x1000, 0x400 + 4 * e.below(0x100), exit);
     let args = super::elfgen::arg_string(e);
-    Guest { file, args, fails, features }
+    // run() counts the states since the last sync relative to its own start, so a preset total is only
+    // the state of a real run if it is a multiple of the sync interval (= "a sync was just sent"):
+    // 2147 x 2,000,000 is the last such total below 2^32 (967,296 states below it)
+    let start_total = match e.below(4) {
+        0 => 2147u64 * 2_000_000,
+        _ => 0,
+    };
+    if start_total != 0 {
+        features.push("state count starts just below 2^32");
+    }
+    Guest { file, args, fails, features, start_total }
 }
 
 pub struct Machine {
@@ -280,6 +293,7 @@ pub struct Final {
 /// (A) the real run loop
 pub fn run_a(g: &Guest, tag: &str) -> Result<(Machine, Final), String> {
     let mut m = machine(&g.file, &g.args, tag)?;
+    hooks::set_state_sum(&mut m.cpu, g.start_total as usize);
     let r = {
         let cpu = &mut m.cpu;
         guarded(move || cpu.run())
@@ -325,7 +339,8 @@ pub fn run_b(g: &Guest, tag: &str, max_steps: u64) -> Result<(Machine, Final, BI
     s.ccr = hooks::ccr(cpu);
     s.pc = hooks::pc(cpu);
     let exit = cpu.exit_addr;
-    let mut total: u64 = 0;
+    let mut total: u64 = g.start_total;
+    cpu.bus.cpu_state_sum = total as usize;
     let mut expected: Vec<String> = vec![];
     let mut result: Result<(), String> = Ok(());
     let mut steps = 0u64;
@@ -613,14 +628,14 @@ fn digest(f: &Final, cpu: &Cpu) -> u64 {
 }
 
 fn guest_json(g: &Guest) -> Value {
-    json!({"kind": "run-program", "file": hex(&g.file), "args": g.args, "fails": g.fails, "features": g.features})
+    json!({"kind": "run-program", "file": hex(&g.file), "args": g.args, "fails": g.fails, "features": g.features, "start_total": g.start_total})
 }
 
 pub fn run(ctx: &Ctx) -> i32 {
     if let Some(v) = &ctx.replay {
         let case = v.get("case").unwrap_or(v);
         let (Some(file), Some(args)) = (case.get("file").and_then(|f| f.as_str()).and_then(unhex), case.get("args").and_then(|a| a.as_str())) else { return 2 };
-        let g = Guest { file, args: args.to_string(), fails: case.get("fails").and_then(|f| f.as_bool()).unwrap_or(false), features: vec![] };
+        let g = Guest { file, args: args.to_string(), fails: case.get("fails").and_then(|f| f.as_bool()).unwrap_or(false), features: vec![], start_total: case.get("start_total").and_then(|f| f.as_u64()).unwrap_or(0) };
         let quiet = Redirect::start(false);
         let r = judge(&g, "replay");
         drop(quiet);
